@@ -76,7 +76,7 @@ MIN = {
     'histories_real_rsync': 30,
 }
 CASE_TIMEOUT = 120
-NCASES = {'quick': 1600, 'thorough': 40000}
+NCASES = {'quick': 1600, 'thorough': 24000}
 
 
 def ncases(tier):
